@@ -73,9 +73,9 @@ def gen_content(rng):
     if r < 0.3:
         return None
     if r < 0.4:
-        return "".join(rng.choice([" ", "\t", "\n", " "]) for _ in range(rng.randrange(0, 4)))
+        return "".join(rng.choice([" ", "\t", "\n", "\u00a0", "\r"]) for _ in range(rng.randrange(0, 4)))
     if r < 0.55:
-        return rng.choice([" ", "\n", ""]) + X.rand_text(rng) + rng.choice([" ", "\n  ", "", " "])
+        return rng.choice([" ", "\n", "", "\r\n"]) + X.rand_text(rng) + rng.choice([" ", "\n  ", "", "\u00a0", "\r"])
     return X.rand_text(rng)
 
 
